@@ -1,7 +1,8 @@
 (* Proofs for Props/C03.v: one server-side call (Model/ServerCall.v).
    Axiom-free; every lemma used by Props/C03.v is closed under the global context. *)
 From Coq Require Import String ZArith List Bool Lia.
-From GV Require Import Lib.Str Gen.Facts Gen.FactsC03 Model.Base64 Model.Metadata Model.ServerCall.
+From GV Require Import Lib.Str Gen.Facts Gen.FactsC03 Model.Base64 Model.Metadata Model.ServerCall
+  Gen.FactsC03Probes.
 Import ListNotations.
 Open Scope Z_scope.
 
@@ -13,7 +14,7 @@ Definition internal_msg : list Z := s2z "Internal Server Error".
 Lemma aexit_constants :
   aexit_exception = (2, Some internal_msg) /\ aexit_unary_missing = (2, Some internal_msg) /\
   aexit_normal = (0, None) /\ deadline_status_failed = 4 /\ deadline_status_cancelled = 4 /\ status_ok = 0 /\
-  aexit_grpc_ok_unary_as_exception = true.
+  aexit_grpc_ok_unary_as_exception = true /\ aexit_base_propagates = true.
 Proof. repeat split; reflexivity. Qed.
 
 (* order, guards, HTTP status, grpc-status and message of the early aborts of request_handler *)
@@ -37,17 +38,6 @@ Definition error_response (h : Z) (gs : option Z) : bool :=
 Lemma abort_entries_are_errors :
   forallb (fun e : abort_entry => let '(_, h, gs, _) := e in error_response h gs) abort_table = true.
 Proof. vm_compute. reflexivity. Qed.
-
-(* the precondition checks of the four sending calls, in source order, are the ones the model implements *)
-Lemma api_checks_are :
-  api_checks =
-  [ (s2z "send_initial_metadata", [s2z "self._send_initial_metadata_done"]);
-    (s2z "send_message", [s2z "not self._cardinality.server_streaming && self._send_message_done"]);
-    (s2z "send_trailing_metadata",
-     [s2z "self._send_trailing_metadata_done";
-      s2z "not self._cardinality.server_streaming and (not self._send_message_done) and (status is Status.OK)"]);
-    (s2z "cancel", [s2z "self._cancel_done"]) ].
-Proof. reflexivity. Qed.
 
 Lemma wire_constants :
   grpc_content_type = s2z "application/grpc" /\ proto_subtype = s2z "proto" /\
@@ -1292,6 +1282,22 @@ Definition good_request : list header :=
     (s2z ":authority", s2z "x"); (s2z "te", s2z "trailers"); (s2z "content-type", s2z "application/grpc") ].
 Definition known_paths : list (list Z) := [s2z "/v.S/M"].
 Definition std_env (c : card) (x : extk) : env := mkE c 1 false true x None false.
+
+(* What the repository does on the probe programs of Gen/FactsC03Probes.v (regenerated from its BEHAVIOUR on every
+   run: precondition refusals of the four sending calls, HEADERS / trailers vs trailers-only / RST_STREAM after
+   non-OK while closable, h2 closing a half-closed stream after a refused send, part-way failures, the exit
+   path for return / Exception / GRPCError / BaseException, x {UU, SS} x END_STREAM received or not) is what the
+   model computes. *)
+Definition golden_run (g : card * bool * list op * fin0) : list frame * list opres :=
+  let '(c, eof, ops, f) := g in
+  let r := run_call known_paths good_request (mkE c 1 false eof ENone None false) (mkP ops (Fin f) Honour) in
+  (r_out r, r_results r).
+
+Lemma golden_probes_agree : map golden_run golden_in = golden_out.
+Proof. vm_compute. reflexivity. Qed.
+
+Lemma golden_probes_nonempty : (100 <= length golden_in)%nat.
+Proof. vm_compute. repeat constructor. Qed.
 
 (* FULL STATEMENT (false):
      forall known hs e p, let r := run_call known hs e p in
